@@ -13,14 +13,9 @@ use std::hash::{Hash, Hasher};
 /// all packets from the same connection go to the same worker for proper
 /// request/response tracking.
 pub fn hash_flow(packet: &[u8], num_workers: usize) -> usize {
-    // Skip Ethernet header (14 bytes) if present
-    let ip_start: usize = if packet.len() > 14
-        && ((packet[12] == 0x08 && packet[13] == 0x00)
-            || (packet[12] == 0x86 && packet[13] == 0xDD))
-    {
-        14
-    } else {
-        0 // Raw IP packet
+    let (ip_start, version) = match locate_ip(packet) {
+        Some(located) => located,
+        None => return fallback_hash(packet, num_workers),
     };
 
     let min_length = ip_start.saturating_add(40); // IP header + TCP header minimum
@@ -30,13 +25,40 @@ pub fn hash_flow(packet: &[u8], num_workers: usize) -> usize {
     }
 
     let ip_packet = &packet[ip_start..];
-    let version = (ip_packet[0] >> 4) & 0x0F;
 
     match version {
         4 => hash_ipv4_flow(ip_packet, num_workers),
         6 => hash_ipv6_flow(ip_packet, num_workers),
         _ => fallback_hash(packet, num_workers),
     }
+}
+
+/// Locates the IP header exactly as `packet_parser::parse_packet` does (Ethernet by ethertype,
+/// raw IP by version nibble, NULL/loopback `1e 00`), so that the worker is chosen from the
+/// bytes the analyzer will actually look at. Returns `(offset, ip_version)`.
+fn locate_ip(packet: &[u8]) -> Option<(usize, u8)> {
+    if packet.len() >= 14 {
+        match u16::from_be_bytes([packet[12], packet[13]]) {
+            0x0800 if packet.len() >= 34 => return Some((14, 4)),
+            0x86DD if packet.len() >= 54 => return Some((14, 6)),
+            _ => {}
+        }
+    }
+    if packet.len() >= 20 {
+        match packet[0] >> 4 {
+            4 => return Some((0, 4)),
+            6 if packet.len() >= 40 => return Some((0, 6)),
+            _ => {}
+        }
+    }
+    if packet.len() >= 24 && packet[0] == 0x1e && packet[1] == 0x00 {
+        match packet[4] >> 4 {
+            4 => return Some((4, 4)),
+            6 if packet.len() >= 44 => return Some((4, 6)),
+            _ => {}
+        }
+    }
+    None
 }
 
 /// Hashes IPv4 flow (src_ip, dst_ip, src_port, dst_port).
